@@ -33,7 +33,11 @@ pub struct Cfg {
     /// followed by `pumps` settle rounds of heartbeats to every member (`requests` is unused);
     /// "phased_post": phased, plus after every round one more request to the challenger and to
     /// member 0 with two heartbeat rounds (whoever leads by then appends and replicates);
-    /// "dueling": see `run_raft`
+    /// "dueling": see `run_raft`;
+    /// "diverge_LF": a divergent history (two never-replicated entries of different terms) is
+    /// built behind barriers under default decisions and only the final unbarriered phase is
+    /// explored; here `elections` = back-to-back heartbeat interrupts of the last leader,
+    /// `requests` = never-replicated entries on the deposed middle leader; see `run_raft`
     pub shape: &'static str,
     pub elections: usize,
     pub requests: usize,
@@ -57,6 +61,12 @@ impl Cfg {
                 "phased_post"
             } else if v["shape"] == "dueling" {
                 "dueling"
+            } else if v["shape"] == "diverge_20" {
+                "diverge_20"
+            } else if v["shape"] == "diverge_01" {
+                "diverge_01"
+            } else if v["shape"] == "diverge_12" {
+                "diverge_12"
             } else {
                 "concurrent"
             },
@@ -147,6 +157,68 @@ pub fn run_raft(rs: &RaftSim, cfg: Cfg, ch: &mut Chooser) -> Exec {
     let rec: Rec<Histories> = Rec::new();
     let (end, overflow) = run_with_chooser(&rs.sim, ch, MAX_POINTS, async || {
         let mut sent = 0;
+        if cfg.shape.starts_with("diverge") {
+            // Builds a DIVERGENT log history deterministically (quiescence barriers, default
+            // decisions, not explored), then explores only the last, unbarriered phase:
+            //   L leads term 1, commits x everywhere, appends e but never replicates it;
+            //   F wins term 2 (L refuses: its log is longer; O grants), appends `requests`
+            //   entries u.. and never replicates them;
+            //   L wins term 3 with O's vote while its log [x, e] is already longer than the common
+            //   prefix [x], so its first AppendEntries to F (prev = e) is rejected;
+            //   last phase: request q at L and `elections` back-to-back heartbeat interrupts at L,
+            //   then `pumps` heartbeat rounds.
+            let (l, f) = match cfg.shape {
+                "diverge_01" => (0u32, 1u32),
+                "diverge_12" => (1, 2),
+                _ => (2, 0),
+            };
+            crate::driver::RECORDING.with(|r| r.set(false));
+            let mut h: Histories = vec![vec![]; N];
+            let collect = async |h: &mut Histories| {
+                hydro_lang::sim::quiesce().await;
+                for member in 0..N as u32 {
+                    let got: Vec<LogEntry<String>> = rs.committed.collect(member).await;
+                    h[member as usize].extend(got.into_iter().map(|e| (e.message, e.term_received, e.index)));
+                    let _: Vec<(String, Option<MemberId<Replica>>)> = rs.redirected.collect(member).await;
+                }
+            };
+            // an election interrupt is swallowed once if a heartbeat was seen since the last one
+            let elect = async |h: &mut Histories, m: u32| {
+                rs.election.send(m, ());
+                collect(h).await;
+                rs.election.send(m, ());
+                collect(h).await;
+            };
+            elect(&mut h, l).await;
+            rs.request.send(l, "x".to_owned());
+            let mut seed_pumps = 0;
+            while h.iter().any(|x| x.is_empty()) && seed_pumps < 4 {
+                seed_pumps += 1;
+                rs.heartbeat.send(l, ());
+                collect(&mut h).await;
+            }
+            rs.request.send(l, "e".to_owned());
+            collect(&mut h).await;
+            elect(&mut h, f).await;
+            for i in 0..cfg.requests {
+                rs.request.send(f, format!("u{i}"));
+                collect(&mut h).await;
+            }
+            elect(&mut h, l).await;
+            // ---- explored from here on ----
+            crate::driver::RECORDING.with(|r| r.set(true));
+            rs.request.send(l, "q".to_owned());
+            for _ in 0..cfg.elections {
+                rs.heartbeat.send(l, ());
+            }
+            collect(&mut h).await;
+            for _ in 0..cfg.pumps {
+                rs.heartbeat.send(l, ());
+                collect(&mut h).await;
+            }
+            rec.push(h);
+            return;
+        }
         if cfg.shape == "phased" || cfg.shape == "phased_post" {
             let mut h: Histories = vec![vec![]; N];
             // quiesce (phase barrier) and fold every member's newly committed entries into its history
@@ -418,9 +490,21 @@ fn configs(thorough: bool) -> Vec<(Cfg, usize)> {
             (c("phased", 3, 0, 1), 2),
             (c("phased_post", 1, 0, 1), 3),
             (c("phased_post", 2, 0, 2), 2),
+            (c("diverge_20", 2, 1, 3), 3),
+            (c("diverge_01", 2, 2, 3), 3),
+            (c("diverge_12", 3, 1, 3), 3),
         ]
     } else {
-        vec![(c("concurrent", 2, 2, 2), 2), (c("seeded", 2, 2, 3), 3), (c("dueling", 1, 0, 2), 2), (c("phased", 2, 0, 1), 2), (c("phased_post", 1, 0, 1), 2)]
+        vec![
+            (c("concurrent", 2, 2, 2), 2),
+            (c("seeded", 2, 2, 3), 3),
+            (c("dueling", 1, 0, 2), 2),
+            (c("phased", 2, 0, 1), 2),
+            (c("phased_post", 1, 0, 1), 2),
+            (c("diverge_20", 2, 1, 3), 2),
+            (c("diverge_01", 2, 2, 3), 2),
+            (c("diverge_12", 3, 1, 3), 2),
+        ]
     }
 }
 
